@@ -979,7 +979,9 @@ def _parse_section_header_line(line: bytes) -> tuple[Section, bytes]:
             raise ValueError(f"invalid section name {pts[0]!r}")
         pts = pts[0].split(b".", 1)
         if len(pts) == 2:
-            section = (pts[0], pts[1])
+            # Deprecated [section.subsection] syntax: git lower-cases
+            # the subsection name.
+            section = (pts[0], pts[1].lower())
         else:
             section = (pts[0],)
     return section, line
